@@ -48,6 +48,10 @@ pub struct Case {
     pub workers: u8,
     /// a third, untouched pool exists from the start (more pools = more validation orders)
     pub extra_pool: bool,
+    /// clients that are not otherwise busy have sent Parse/Bind/Execute but not yet Sync when the reload happens; the Sync
+    /// (= the checkout) follows after it
+    #[serde(default)]
+    pub open_batch: bool,
 }
 
 pub struct WirePart;
@@ -64,7 +68,7 @@ impl Part for WirePart {
         true
     }
     fn rule(&self) -> String {
-        "old configuration = pools pa and pb (optionally an untouched pd) on their own mock backends; new configuration = one mutation: identical, [general]-only, pool pb removed, pool pc added, pa re-pointed to another backend, replica added to pa, pa's pool_size or pool_mode changed, pb's password changed, one of pb's two users removed, the roles of pa's primary and replica swapped, syntactically invalid TOML (3 kinds), semantically invalid (bad default_role, non-numeric shard, out-of-range default_shard, splitting without parser, user without password) in pa, pb or an added pool; trigger admin RELOAD or SIGHUP; optionally the pa client is inside a transaction and the pb client has a statement held at the backend while the reload happens. Oracle: invalid => SHOW CONFIG/SHOW DATABASES identical, no backend session opened or closed by the reload, later transactions on the same backend connections; valid => unchanged pools keep their backend connections (none opened), changed/added/removed pools are in effect for the next transaction (re-pointed pool served by the new backend only, removed pool answered with an error and nothing reaching any backend, added pool reachable), and work open across the reload completes on its original connection with the client's own rows. Non-trivial = a definition change or an invalid file while at least one client has open work".into()
+        "old configuration = pools pa and pb (optionally an untouched pd) on their own mock backends; new configuration = one mutation: identical, [general]-only, pool pb removed, pool pc added, pa re-pointed to another backend, replica added to pa, pa's pool_size or pool_mode changed, pb's password changed, one of pb's two users removed, the roles of pa's primary and replica swapped, syntactically invalid TOML (3 kinds), semantically invalid (bad default_role, non-numeric shard, out-of-range default_shard, splitting without parser, user without password) in pa, pb or an added pool; trigger admin RELOAD or SIGHUP; optionally the pa client is inside a transaction and the pb client has a statement held at the backend while the reload happens, optionally the clients that are not busy have an extended-protocol batch open (Parse/Bind/Execute sent, Sync following after the reload). Oracle: invalid => SHOW CONFIG/SHOW DATABASES identical, no backend session opened or closed by the reload, later transactions on the same backend connections; valid => unchanged pools keep their backend connections (none opened), changed/added/removed pools are in effect for the next transaction (re-pointed pool served by the new backend only, removed pool answered with an error and nothing reaching any backend, added pool reachable), and work open across the reload completes on its original connection with the client's own rows. Non-trivial = a definition change or an invalid file while at least one client has open work (transaction, held statement or unsynced batch)".into()
     }
     fn cases(&self, tier: Tier) -> u64 {
         tier.pick(1_000, 14_000)
@@ -85,8 +89,8 @@ impl Part for WirePart {
             2 => (0u8..3).prop_map(Change::InvalidSyntax),
             5 => (0u8..5, 0u8..3).prop_map(|(k, p)| Change::InvalidSemantic(k, p)),
         ];
-        (change, any::<bool>(), any::<bool>(), any::<bool>(), prop_oneof![Just(1u8), Just(2u8), Just(4u8)], any::<bool>())
-            .prop_map(|(change, sighup, straddle_a, straddle_b, workers, extra_pool)| Case { change, sighup, straddle_a, straddle_b, workers, extra_pool })
+        (change, any::<bool>(), any::<bool>(), any::<bool>(), prop_oneof![Just(1u8), Just(2u8), Just(4u8)], any::<bool>(), prop::bool::weighted(0.4))
+            .prop_map(|(change, sighup, straddle_a, straddle_b, workers, extra_pool, open_batch)| Case { change, sighup, straddle_a, straddle_b, workers, extra_pool, open_batch })
             .boxed()
     }
     fn run(&self, c: &Case, ctx: &mut WorkerCtx) -> Outcome {
@@ -294,6 +298,25 @@ async fn run_case(c: &Case, ctx: &mut WorkerCtx) -> Outcome {
             None => inconclusive!("held statement never reached the backend".to_string()),
         }
     }
+    // ---- a batch whose Sync will only arrive after the reload
+    let mut a_batch: Option<Tag> = None;
+    let mut b_batch: Option<Tag> = None;
+    if c.open_batch {
+        for (cli, slot, busy) in [(&mut ca, &mut a_batch, c.straddle_a), (&mut cb, &mut b_batch, c.straddle_b)] {
+            if busy {
+                continue;
+            }
+            let t = cli.tag();
+            let mut b = proto::parse("", &format!("{} SELECT v FROM t /*@ rows=2 */", t.render()), &[]);
+            b.extend_from_slice(&proto::bind("", "", &[], &[], &[]));
+            b.extend_from_slice(&proto::execute("", 0));
+            cli.send(&b).await;
+            *slot = Some(t);
+        }
+        // let the pooler read and buffer them
+        tokio::time::sleep(Duration::from_millis(20)).await;
+        o.label("batch_open_across_reload");
+    }
     let show_config0 = strip_volatile(&wire::admin_query(&mut admin, "SHOW CONFIG").await.unwrap_or_default());
     let show_db0 = strip_volatile(&wire::admin_query(&mut admin, "SHOW DATABASES").await.unwrap_or_default());
     let mark = env.shared.len();
@@ -302,7 +325,7 @@ async fn run_case(c: &Case, ctx: &mut WorkerCtx) -> Outcome {
     let (text, valid) = new_config(&env.mocks, c, env.pg.port);
     env.pg.write_config(&text);
     let defines_change = !matches!(c.change, Change::Identical | Change::GeneralOnly);
-    o.nontrivial = (defines_change || !valid) && (c.straddle_a || c.straddle_b);
+    o.nontrivial = (defines_change || !valid) && (c.straddle_a || c.straddle_b || c.open_batch);
     o.label(&format!("change:{}", match &c.change {
         Change::InvalidSyntax(_) => "invalid_syntax".to_string(),
         Change::InvalidSemantic(k, _) => format!("invalid_semantic_{}", k % 5),
@@ -391,7 +414,61 @@ async fn run_case(c: &Case, ctx: &mut WorkerCtx) -> Outcome {
     let pa_changed = valid && matches!(c.change, Change::RepointA | Change::AddReplicaA | Change::PoolSizeA | Change::PoolModeA | Change::SwapRolesA);
     let pb_removed = valid && c.change == Change::RemovePoolB;
     let pb_changed = valid && matches!(c.change, Change::PasswordB | Change::RemoveUserB);
+    // ---- batches that were open across the reload: their Sync is the start of a transaction after it
+    if let Some(t) = a_batch {
+        ca.send(&proto::sync()).await;
+        let (m, e) = ca.read_until_ready(wire::T_REPLY).await;
+        if !matches!(e, ReadEnd::Ready(_)) || m.iter().any(|x| x.code == b'E') {
+            bail!("client-of-kept-pool-not-served", format!("pa client's batch (Parse/Bind/Execute before the reload, Sync after it) ended {:?} errors {:?}", e, crate::cli::errors(&m)));
+        }
+        let at = conns_of_tag(&env.log(), t);
+        if pa_changed {
+            let allowed: Vec<usize> = match c.change {
+                Change::RepointA => vec![A2],
+                Change::AddReplicaA => vec![A1, AR],
+                Change::SwapRolesA => vec![AR],
+                _ => vec![A1],
+            };
+            if at.is_empty() || at.iter().any(|(s, _)| !allowed.contains(s)) {
+                bail!("changed-pool-not-in-effect", format!("after {:?} the pa client's batch whose Sync came after the reload ran on {:?} (allowed backends {:?})", c.change, at.iter().map(|(s, _)| env.mocks[*s].label.clone()).collect::<Vec<_>>(), allowed));
+            }
+        } else if at.iter().any(|c| !open_before(&env.log(), mark, *c)) {
+            bail!("unchanged-pool-lost-its-connections", format!("pa is unchanged by {:?} but its client's batch ran on a new backend connection {:?}", c.change, at));
+        }
+    }
+    if let Some(t) = b_batch {
+        cb.send(&proto::sync()).await;
+        let (m, e) = cb.read_until_ready(wire::T_REPLY).await;
+        let at = conns_of_tag(&env.log(), t);
+        if pb_removed {
+            if !at.is_empty() {
+                bail!("removed-pool-still-served", format!("pb was removed but its client's batch whose Sync came after the reload ran on {:?}", at.iter().map(|(s, _)| env.mocks[*s].label.clone()).collect::<Vec<_>>()));
+            }
+            if !m.iter().any(|x| x.code == b'E') && matches!(e, ReadEnd::Ready(_)) {
+                bail!("removed-pool-no-error", "pb was removed but its client's batch got no error".to_string());
+            }
+        } else {
+            if !matches!(e, ReadEnd::Ready(_)) || m.iter().any(|x| x.code == b'E') {
+                bail!("client-of-kept-pool-not-served", format!("pb client's batch (Sync after the reload) ended {:?} errors {:?}", e, crate::cli::errors(&m)));
+            }
+            if at.is_empty() || at.iter().any(|(s, _)| *s != B1) {
+                bail!("misrouted-after-reload", format!("pb client's batch ran on {:?}", at));
+            }
+        }
+    }
     // pa
+    if !ca.is_open() {
+        ca = match env.client(11, "u", "pa", "pw", &[]).await {
+            Ok(c) => c,
+            Err(e) => bail!("client-of-kept-pool-not-served", format!("pa login after the reload: {}", e)),
+        };
+    }
+    if !cb.is_open() && !pb_removed {
+        cb = match env.client(12, "u", "pb", if c.change == Change::PasswordB { "newpw" } else { "pw" }, &[]).await {
+            Ok(c) => c,
+            Err(e) => bail!("client-of-kept-pool-not-served", format!("pb login after the reload: {}", e)),
+        };
+    }
     let x = prog::run_req(&mut ca, &Req::Simple(vec![St::new(Sk::Select)]), t0).await;
     if !matches!(x.end, ReadEnd::Ready(_)) || x.reply.iter().any(|m| m.code == b'E') {
         bail!("client-of-kept-pool-not-served", format!("pa client's transaction after the reload ended {:?} errors {:?}", x.end, crate::cli::errors(&x.reply)));
